@@ -1265,7 +1265,7 @@ func boundedByInput(v *Val, conds []Cond) (bool, string) {
 }
 
 func (a *Analysis) CheckC10(rep *Report) {
-	rep.Explanation = "Taint rule over every path of every Decode (module callees inlined) and of every reader primitive in its generic body and every instantiation. Sources: values read from the buffer (binary.Read targets, read byte counts). Sinks: the length and capacity of every make, the count of bytes.Repeat/strings.Repeat, (*Buffer).Grow. A sink whose size derives from a source must be sanitised: dominated on the path by a comparison of that same value with buf.Len() that leaves with an error when larger, or be min(value, buf.Len()). Loop growth by append is bounded by C09-P2 (every iteration consumes input). Constant sizes (all fixedLen arguments are literals at the call sites) are untainted. The evidence lists every sink with its sanitiser."
+	rep.Explanation = "Taint rule over every path of every Decode (module callees inlined) and of every reader primitive in its generic body and every instantiation. Sources: values read from the buffer (binary.Read targets, read byte counts). Sinks: the length and capacity of every make, the count of bytes.Repeat/strings.Repeat, (*Buffer).Grow. A sink whose size derives from a source must be sanitised: dominated on the path by a comparison of that same value with buf.Len() that leaves with an error when larger, or be min(value, buf.Len()). T3: a sync.Pool asked for memory on a decode path is not selected by a wire value (an empty pool allocates its size class). Loop growth by append is bounded by C09-P2 (every iteration consumes input). Constant sizes (all fixedLen arguments are literals at the call sites) are untainted. The evidence lists every sink with its sanitiser."
 	rep.Trusted = append(trustedBase(), "allocator behaviour and the constant factor (element size x bytes present) are reported, not judged")
 	rep.Exhaustive = true
 	nsinks, nloops := 0, 0
@@ -1285,6 +1285,16 @@ func (a *Analysis) CheckC10(rep *Report) {
 					sizes, what = []*Val{e.Src}, "make(map)"
 				case e.Kind == EvBufOther && e.Mode == "Grow":
 					sizes, what = e.Args, "Grow"
+				case e.Kind == EvCall && e.Callee != nil && fullName(e.Callee) == "(*sync.Pool).Get" && len(e.Args) > 0:
+					// T3: memory taken from a pool: an empty pool makes a new object with its New function, so *which* pool is
+					// asked decides how much is allocated. A pool picked by a value read from the wire (size classes
+					// indexed by the announced length) allocates by that value, whatever the input holds.
+					nsinks++
+					sel := e.Args[0]
+					fromWire := sel.Contains(func(x *Val) bool { return x.Op == "wire" || x.Op == "short" })
+					rep.Ob("T3-pool-not-selected-by-wire", fmt.Sprintf("%s:pool.Get@%s", key, siteKey(e)), !fromWire, epos,
+						fmt.Sprintf("the pool asked for memory is selected by a value read from the wire (%s): an empty pool allocates a new object of that pool's size class, so the allocation follows the announced value, not the bytes present", sel.Pretty()))
+					return
 				case e.Kind == EvRep:
 					// T2: work and memory per decode call are bounded by the input only if a loop whose trip count comes off
 					// the wire consumes input on every completed iteration (or leaves): an iteration that can complete
